@@ -45,6 +45,10 @@ pub struct Cli {
 }
 
 pub fn parse_cli() -> Cli {
+    // VH_TRACE=<env-filter> prints the subject's tracing output (debugging the harness only)
+    if let Ok(f) = std::env::var("VH_TRACE") {
+        let _ = tracing_subscriber::fmt().with_env_filter(f).with_writer(std::io::stderr).try_init();
+    }
     let mut tier = match std::env::var("VERIF_TIER").ok().as_deref() {
         Some("thorough") => Tier::Thorough,
         _ => Tier::Quick,
